@@ -122,5 +122,5 @@ func TestVerif_C18(t *testing.T) {
 	rec := vh.NewRecorder("C18", "doltdb", "exploration", c18DoltdbRule,
 		"all commits of a case share one (empty) root value; commits differ by parents and metadata (explicit dates)")
 	defer rec.Write(t)
-	vh.Check(t, "dag", 700, 300, func(rt *rapid.T) { c18DoltdbCase(rt, rec) })
+	vh.Check(t, "dag", 700, 200, func(rt *rapid.T) { c18DoltdbCase(rt, rec) })
 }
